@@ -7,7 +7,8 @@ use crate::oracle::*;
 use crate::problem::*;
 use crate::solve::*;
 use crate::util::*;
-use clarabel::solver::SolverStatus;
+use clarabel::solver::{IPSolver, SolverStatus};
+use clarabel::verif_hooks::{observer_arm, observer_take};
 use serde_json::{json, Value};
 
 pub struct Traj {
@@ -135,6 +136,55 @@ impl Space for Traj {
                     ensure!((short.s[i] - ws).abs() <= 8.0 * f64::EPSILON * ws.abs(), "returned-s-is-not-the-kth-iterate", "max_iter={} s[{}]={:e} want {:e}", k, i, short.s[i], ws);
                     ensure!((short.z[i] - wz).abs() <= 8.0 * f64::EPSILON * wz.abs(), "returned-z-is-not-the-kth-iterate", "max_iter={} z[{}]={:e} want {:e}", k, i, short.z[i], wz);
                 }
+            }
+        }
+        // ---- the same holds for re-solves on one solver object (histories): budgets in a fixed mixed order,
+        // each run must pass through the long run's iterates whatever was solved before on that object
+        let budgets: Vec<u32> = {
+            let mut b = vec![std::cmp::min(2, kfinal), ss.max_iter, 0, kfinal, 1, std::cmp::min(3, kfinal)];
+            b.dedup();
+            b
+        };
+        let hist = guarded(|| {
+            let mut solver = p.build(ss.build());
+            let mut out = vec![];
+            for &k in &budgets {
+                solver.settings.max_iter = k;
+                observer_arm();
+                solver.solve();
+                out.push((k, observer_take(), solver.solution.iterations));
+            }
+            out
+        })
+        .map_err(|e| {
+            let _ = observer_take();
+            Violation::new("re-solve-panics", e)
+        })?;
+        for (hi, (k, iters, niter)) in hist.iter().enumerate() {
+            ctx.transitions += iters.len() as u64;
+            ensure!(*niter <= *k, "prefix-run-exceeds-budget", "re-solve #{} max_iter={} but iterations={}", hi, k, niter);
+            for got in iters.iter() {
+                let Some(want) = long.iters.iter().find(|r| r.iter == got.iter) else {
+                    continue;
+                };
+                // compare the first observation with each counter value only
+                if iters.iter().find(|r| r.iter == got.iter).map(|r| std::ptr::eq(r, got)) != Some(true) {
+                    continue;
+                }
+                ensure!(
+                    got.tau.to_bits() == want.tau.to_bits() && got.kappa.to_bits() == want.kappa.to_bits() && bits_eq(&got.x, &want.x) && bits_eq(&got.s, &want.s) && bits_eq(&got.z, &want.z),
+                    "trajectory-depends-on-solver-history",
+                    "re-solve #{} (budgets so far {:?}): iterate {} differs from a fresh run: tau {} vs {}, kappa {} vs {}, x {:?} vs {:?}",
+                    hi,
+                    &budgets[..=hi],
+                    got.iter,
+                    got.tau,
+                    want.tau,
+                    got.kappa,
+                    want.kappa,
+                    got.x,
+                    want.x
+                );
             }
         }
         ctx.nontrivial += 1;
